@@ -64,6 +64,23 @@ def run(tier, wd):
                             case["_elems"] = elems
                         cases.append(case)
                         meta.append((route, multi))
+    # 1b. string types, byte for byte: tokens that are not valid UTF-8 (and some that are), in every spelling of an option value
+    # (attached to a short name too) and as arguments; they travel hex-encoded, the specification sees their hex names
+    RAW = [b"\xff", b"caf\xe9", b"\xc3(", b"a\x80b", b"\xe6\x97", "\u65e5\u672c".encode(), b"ok", b"\xf0\x9f", b"x\xc0\xafy", b"\xed\xa0\x80"]
+    RAW += [bytes(rnd.choice([0x61, 0x80, 0xff, 0xc3, 0x28, 0xe9, 0x20]) for _ in range(rnd.randint(1, 5))) for _ in range(10 if q else 400)]
+    RAW = [t for t in RAW if t[:1] not in (b"-", b"=", b" ") and t.strip() == t]
+    for typ in ("string", "strings"):
+        for seq in [[t] for t in RAW] + [[rnd.choice(RAW), t] for t in RAW]:
+            for role, forms in (("opt", ("eqs", "eql", "att", "seps", "sepl")), ("arg", ("pos",))):
+                for form in forms:
+                    hx = lambda b: b.hex()
+                    argv = []
+                    for t in seq:
+                        argv += {"eqs": [b"-o=" + t], "eql": [b"--opt=" + t], "att": [b"-o" + t], "seps": [b"-o", t], "sepl": [b"--opt", t], "pos": [t]}[form]
+                    case = {"type": typ, "role": role, "ptr": rnd.random() < 0.5, "default": V.DEFAULTS[typ][0], "envs": [], "cli": [hx(t) for t in seq],
+                            "argv": [], "argv_hex": [hx(a) for a in argv], "spec": "[-o]..." if role == "opt" else "[A...]"}
+                    cases.append(case)
+                    meta.append(("cli", typ in V.MULTI))
     # 2. the library runs them and strconv says what each token is (trusted oracle for parsing itself)
     send = [{k: v for k, v in c.items() if not k.startswith("_")} for c in cases]
     results = core.run_harness(binpath, "values", send, wd)
@@ -92,6 +109,9 @@ def run(tier, wd):
             rep.violation("%s: %s" % (vc.describe(c), r), {"engine": "values", "case": send_c, "kind": "dead"})
             continue
         want = V.expected_value(c, pc, r)
+        if "argv_hex" in c:
+            want = pc["val"]      # the hex names of the tokens
+            r = dict(r, value=r.get("value_hex", []))
         why = None
         if pc["usage"]:
             rejected += 1
@@ -115,7 +135,7 @@ def run(tier, wd):
     rep.cov["cases_with_a_rejected_token"] = rejected
     rep.cov["rule"] = ("curated edge tokens per base type (signs, bases, underscores, exponents, overflow, inf/NaN, unicode digits, padding, empty) plus random strings "
                        "over a type-specific alphabet x {single, multi-valued} x {option, argument} x {command line: alone, before a valid token, after a valid token; "
-                       "environment}; strconv's verdict on each token (computed by the harness) is the ok flag of the Values.tla case, TLC predicts usage error / bound "
+                       "environment}; string types also with byte strings that are not valid UTF-8 in every option spelling (=, attached, separate) and as arguments; strconv's verdict on each token (computed by the harness) is the ok flag of the Values.tla case, TLC predicts usage error / bound "
                        "value and the recorded run must agree; distinct = (type, role, route, tokens)")
     rep.assumptions += ["strconv is the trusted oracle for parsing itself (DESIGN section 7); 'all strings' is sampled, not enumerated",
                         "an empty option value cannot be delivered (-o= is not an occurrence); empty strings are delivered as arguments and via multi-valued lists only"]
@@ -128,5 +148,7 @@ def replay(path, wd):
             return bool(r.get("hang") or r.get("crash"))
         if o["usage"]:
             return r.get("ran") or not r.get("err")
+        if "argv_hex" in o["case"]:
+            return not r.get("ran") or r.get("value_hex", []) != o["expected"]
         return not r.get("ran") or r.get("value") != o["expected"]
     return vc.replay_values(path, wd, judge)
